@@ -67,3 +67,14 @@ def _gen_one(rep, s, cfg, clauses):
             case = {k: v for k, v in f.items() if k not in ("clause", "observed", "expected")}
             rep.fail(f["clause"], "vec." + s, case, f["observed"], f["expected"])
     return out
+
+
+SPEC_KEYS = ["id", "op", "n", "s", "e", "st", "idx", "mask", "key", "value", "ok", "contents", "mode", "la", "lb", "na", "nb",
+             "nonepos", "len", "vals", "isna", "dropna", "fill"]
+
+
+def trace(rep, tier, seed, clauses, ops=None):
+    n = 1500 if tier == "quick" else 20000
+    sel = (lambda e: e["op"] in ops) if ops else None
+    return suite_rel.trace(rep, "vec", "Trace_Vector", "Trace_Vector.cfg", "record", [seed, n], SPEC_KEYS, clauses,
+                           hashseed=seed % 1000, driver="drv_vec.py", select=sel)
